@@ -15,7 +15,7 @@ EXPLANATION = (
     "bytes it was built from) against the statement: exact bytes, advance by whole words inside the buffer, limit charged, failures "
     "leave offset and limit untouched, no out-of-range slice or usize overflow. All conditions compare terms of period 4, so the scope "
     "covers every ordering of them; it is not a proof over all lengths.")
-EXHAUSTIVE = True
+EXHAUSTIVE = False     # the abstract inputs are a stated finite scope, not the whole input space
 
 DEC = "rspirv::binary::decoder"
 
